@@ -218,3 +218,72 @@ Definition check_units (m : module) (expected : list string) : bool :=
 (* recorded, unrepaired defects: (module, (unit, name)) regenerated from /verif/known_findings.txt *)
 Definition known_for (known : list (string * (string * string))) (mname : string) : list (string * string) :=
   map snd (filter (fun p => String.eqb (fst p) mname) known).
+
+(* ==== STRICT reading (added by the coverage audit; specification at the end of Scope.v) ================== *)
+Definition bkind_is_del (b : bkind) : bool := match b with BDel => true | _ => false end.
+
+Definition is_global_strictb (e : env) (g : list (string * bkind)) (x : string) : bool :=
+  existsb (fun xk => String.eqb x (fst xk) && effective e (snd xk)) g &&
+  negb (existsb (fun xk => String.eqb x (fst xk) && bkind_is_del (snd xk)) g).
+
+Definition resolves_strict_b (e : env) (g : list (string * bkind)) (st : list frame) (x : string) : bool :=
+  match classify_b st x with
+  | None => false
+  | Some RGlobal =>
+      (match st with [] => is_globalb g x | _ :: _ => false end)
+      || is_global_strictb e g x || memb x (e_builtins e)
+  | Some _ => true
+  end.
+
+Definition alias_of_strict (e : env) (g : list (string * bkind)) (x : string) : option string :=
+  if is_global_strictb e g x then
+    match filter (fun xk => String.eqb x (fst xk) && effective e (snd xk)) g with
+    | [] => None
+    | (_, b) :: rest =>
+        match bkind_module e b with
+        | None => None
+        | Some key =>
+            if forallb (fun xk => opt_eqb (bkind_module e (snd xk)) (Some key)) rest then Some key else None
+        end
+    end
+  else None.
+
+Definition attr_ok_strictb (e : env) (g : list (string * bkind)) (st : list frame) (x : string)
+           (attrs : list string) : bool :=
+  match classify_b st x with
+  | Some RGlobal => match alias_of_strict e g x with Some key => chain_okb e key attrs | None => true end
+  | _ => true
+  end.
+
+Definition item_okb_strict (e : env) (g : list (string * bkind)) (st : list frame) (it : item) : bool :=
+  match it with
+  | Use x _ => resolves_strict_b e g st x
+  | AttrUse x attrs _ => resolves_strict_b e g st x && attr_ok_strictb e g st x attrs
+  | ImportFrom key name _ => match mod_attr e key name with Some _ => true | None => false end
+  | Gap _ => false
+  | _ => true
+  end.
+
+Definition check_module_strict (allow : list (string * string)) (e : env) (m : module) : bool :=
+  let g := global_bindings m in
+  forallb (fun st => forallb (fun it => exceptedb allow st it || item_okb_strict e g st it) (items_of m st))
+          (all_scopes m).
+
+Definition unresolved_strict (allow : list (string * string)) (e : env) (m : module)
+  : list (string * string * Z) :=
+  let g := global_bindings m in
+  flat_map (fun st =>
+              flat_map (fun it => if exceptedb allow st it || item_okb_strict e g st it then []
+                                  else [(unit_of st, item_text it, item_line it)])
+                       (items_of m st))
+           (all_scopes m).
+
+(* attributes of a module of the package = its globals that are really bound after import *)
+Definition internal_attrs_strict (e0 : env) (m : module) : list (string * option string) :=
+  let g := global_bindings m in
+  map (fun x => (x, alias_of_strict e0 g x)) (filter (is_global_strictb e0 g) (dedup_names g [])).
+Definition mk_env_strict (builtins : list string) (ext : list (string * list (string * option string)))
+           (pkg : list module) : env :=
+  let e0 := {| e_builtins := builtins; e_mods := ext |} in
+  {| e_builtins := builtins;
+     e_mods := app (map (fun m => (m_name m, internal_attrs_strict e0 m)) pkg) ext |}.
